@@ -100,22 +100,34 @@ pub struct CountRead {
     pub delivered: std::rc::Rc<std::cell::RefCell<usize>>,
     /// at most this many bytes are handed out per `read` call
     pub chunk: usize,
+    /// every n-th `read` call (n > 0) is answered with `ErrorKind::Interrupted` and delivers nothing -
+    /// the transient condition `std::io::Read` callers are expected to retry
+    pub interrupt_every: usize,
+    pub calls: usize,
 }
 
 impl CountRead {
     pub fn new(bytes: &[u8]) -> (CountRead, std::rc::Rc<std::cell::RefCell<Vec<u8>>>, std::rc::Rc<std::cell::RefCell<usize>>) {
         let data = std::rc::Rc::new(std::cell::RefCell::new(bytes.to_vec()));
         let delivered = std::rc::Rc::new(std::cell::RefCell::new(0usize));
-        (CountRead { data: data.clone(), delivered: delivered.clone(), chunk: usize::MAX }, data, delivered)
+        (CountRead { data: data.clone(), delivered: delivered.clone(), chunk: usize::MAX, interrupt_every: 0, calls: 0 }, data, delivered)
     }
     pub fn with_chunk(mut self, chunk: usize) -> CountRead {
         self.chunk = chunk.max(1);
+        self
+    }
+    pub fn with_interrupts(mut self, every: usize) -> CountRead {
+        self.interrupt_every = every;
         self
     }
 }
 
 impl Read for CountRead {
     fn read(&mut self, buf: &mut [u8]) -> std::io::Result<usize> {
+        self.calls += 1;
+        if self.interrupt_every > 0 && self.calls % self.interrupt_every == 0 {
+            return Err(std::io::Error::new(std::io::ErrorKind::Interrupted, "interrupted"));
+        }
         let d = self.data.borrow();
         let mut pos = self.delivered.borrow_mut();
         let n = buf.len().min(d.len() - *pos).min(self.chunk);
